@@ -229,6 +229,12 @@ func (ex *Exec) applyContract(st *State, c *Contract, args []*Val, sig *types.Si
 		site = ex.instrLabel(in)
 		pos = in.Pos()
 	}
+	// the callee's proof assumes a non-nil pointer receiver: check it here
+	if c.Kind == "func" && sig.Recv() != nil && len(args) > 0 {
+		if _, isPtr := sig.Recv().Type().Underlying().(*types.Pointer); isPtr && args[0].T.Sort == SInt && in != nil {
+			ex.safe(st, in, "nilrecv:"+calleeShort, mkNot(mkEq(args[0].T, tZero)), "method "+calleeShort+" called on a nil receiver")
+		}
+	}
 	for k, r := range c.Requires {
 		g := env.evalBool(r)
 		ex.oblige(st, "call", fmt.Sprintf("%s@%s:pre:%s", calleeShort, site, clauseLabel(r, k)), g, ex.clauseTags(r, ex.top.Tags), "precondition of "+calleeShort+": "+r.Src, pos)
@@ -547,7 +553,7 @@ func (ex *Exec) resolveTarget(env *SpecEnv, e Expr, src string) []target {
 		switch t := x.Typ.Underlying().(type) {
 		case *types.Slice:
 			so := sortOfType(t.Elem())
-			return []target{{key: elemKey(t.Elem()), sort: arraySort(SInt, arraySort(SInt, so)), idx: []Term{sArr(x.T), addT(sOff(x.T), i.T)}}}
+			return []target{{key: elemKey(t.Elem()), sort: arraySort(SInt, arraySort(SInt, so)), idx: []Term{sArr(x.T), idxT(sOff(x.T), i.T)}}}
 		case *types.Map:
 			return ex.mapTargets(t, []Term{x.T, i.T})
 		}
